@@ -447,3 +447,175 @@ Example t_three_wf : wf t_three.
 Proof. apply wfb_sound. vm_compute. reflexivity. Qed.
 Example t_three_get : get 7 t_three = Some 70 /\ iter_key_range (Some 2) (Some 9) t_three = Some [(2, 20); (5, 50); (7, 70)].
 Proof. vm_compute. split; reflexivity. Qed.
+
+(* ---- mutable map: partial refinement ----------------------------------------- *)
+(* Proved: for every sequence of Put / Delete / Checkpoint that stays below the
+   flush threshold, point reads (Get, Has) of the mutable map are the reads of the
+   dictionary obtained by applying the operations to flatten t.
+   Missing w.r.t. mutable_refines: flushes (needs merge_iter = fold of d_put/d_del),
+   iteration reads, and Revert under the hypotheses that exclude the two refuted
+   revert scenarios. *)
+
+Lemma e_view_put k v el : e_view (e_put k v el) = e_insert k v (e_view el).
+Proof. unfold e_view, e_put. cbn [e_log]. rewrite fold_left_app. reflexivity. Qed.
+
+Lemma e_get_insert q k v m : e_get q (e_insert k v m) = if k =? q then Some v else e_get q m.
+Proof.
+  induction m as [|[k' v'] m IH]; cbn [e_insert e_get]; [reflexivity|].
+  destruct (k <? k') eqn:E1; cbn [e_get]; [reflexivity|].
+  destruct (k =? k') eqn:E2; cbn [e_get].
+  - apply N.eqb_eq in E2. subst k'. destruct (k =? q); reflexivity.
+  - rewrite IH. destruct (k' =? q) eqn:E3; [|reflexivity].
+    apply N.eqb_eq in E3. subst q. rewrite E2. reflexivity.
+Qed.
+
+Lemma d_get_put q k v d : d_get q (d_put k v d) = if k =? q then Some v else d_get q d.
+Proof.
+  induction d as [|[k' v'] d IH]; cbn [d_put d_get]; [reflexivity|].
+  destruct (k <? k') eqn:E1; cbn [d_get]; [reflexivity|].
+  destruct (k =? k') eqn:E2; cbn [d_get].
+  - apply N.eqb_eq in E2. subst k'. destruct (k =? q); reflexivity.
+  - rewrite IH. destruct (k' =? q) eqn:E3; [|reflexivity].
+    apply N.eqb_eq in E3. subst q. rewrite E2. reflexivity.
+Qed.
+
+Lemma d_get_del q k d : ksorted (keys d) -> d_get q (d_del k d) = if k =? q then None else d_get q d.
+Proof.
+  induction d as [|[k' v'] d IH]; intros Hs; cbn [d_del d_get]; [destruct (k =? q); reflexivity|].
+  cbn [keys map fst] in Hs. apply ksorted_tail in Hs as [Hs Hf].
+  destruct (k =? k') eqn:E2.
+  - apply N.eqb_eq in E2. subst k'. destruct (k =? q) eqn:E3; [|reflexivity].
+    apply N.eqb_eq in E3. subst q. apply d_get_none_above, Hf.
+  - cbn [d_get]. rewrite (IH Hs). destruct (k' =? q) eqn:E3; [|reflexivity].
+    apply N.eqb_eq in E3. subst q. rewrite E2. reflexivity.
+Qed.
+
+Lemma d_put_lb x k v d : x < k -> Forall (N.lt x) (keys d) -> Forall (N.lt x) (keys (d_put k v d)).
+Proof.
+  intros Hx. induction d as [|[k' v'] d IH]; intros H; cbn [d_put].
+  - constructor; [exact Hx|constructor].
+  - cbn [keys map fst] in H. inversion H as [|? ? Hk Hd]; subst.
+    destruct (k <? k'); [constructor; [exact Hx|exact H]|].
+    destruct (k =? k'); [constructor; [exact Hx|exact Hd]|].
+    constructor; [exact Hk|apply IH, Hd].
+Qed.
+
+Lemma d_put_sorted k v d : ksorted (keys d) -> ksorted (keys (d_put k v d)).
+Proof.
+  induction d as [|[k' v'] d IH]; intros Hs; cbn [d_put].
+  - constructor; constructor.
+  - cbn [keys map fst] in Hs. pose proof Hs as Hs0. apply ksorted_tail in Hs as [Hs Hf].
+    destruct (k <? k') eqn:E1.
+    + apply N.ltb_lt in E1. constructor; [exact Hs0|].
+      constructor; [exact E1|]. rewrite Forall_forall in *. intros x Hx. specialize (Hf x Hx). lia.
+    + destruct (k =? k') eqn:E2.
+      * apply N.eqb_eq in E2. subst k'. constructor; assumption.
+      * apply N.ltb_ge in E1. apply N.eqb_neq in E2. constructor; [apply IH, Hs|].
+        apply d_put_lb; [lia|exact Hf].
+Qed.
+
+Lemma d_del_lb x k d : Forall (N.lt x) (keys d) -> Forall (N.lt x) (keys (d_del k d)).
+Proof.
+  induction d as [|[k' v'] d IH]; intros H; cbn [d_del]; [exact H|].
+  cbn [keys map fst] in H. inversion H as [|? ? Hk Hd]; subst.
+  destruct (k =? k'); [exact Hd|]. constructor; [exact Hk|apply IH, Hd].
+Qed.
+
+Lemma d_del_sorted k d : ksorted (keys d) -> ksorted (keys (d_del k d)).
+Proof.
+  induction d as [|[k' v'] d IH]; intros Hs; cbn [d_del]; [exact Hs|].
+  cbn [keys map fst] in Hs. apply ksorted_tail in Hs as [Hs Hf].
+  destruct (k =? k'); [exact Hs|]. constructor; [apply IH, Hs|apply d_del_lb, Hf].
+Qed.
+
+Lemma e_insert_len k v m : (length (e_insert k v m) <= S (length m))%nat.
+Proof.
+  induction m as [|[k' v'] m IH]; cbn [e_insert length]; [lia|].
+  destruct (k <? k'); cbn [length]; [lia|]. destruct (k =? k'); cbn [length]; lia.
+Qed.
+
+Lemma e_count_le el : (e_count el <= length (e_log el))%nat.
+Proof.
+  unfold e_count, e_view. destruct el as [log cp]. cbn [e_log].
+  assert (H : forall l acc, (length (fold_left (fun m e => e_insert (fst e) (snd e) m) l acc) <= length acc + length l)%nat).
+  { induction l as [|e l IH]; intros acc; cbn [fold_left length]; [lia|].
+    specialize (IH (e_insert (fst e) (snd e) acc)). pose proof (e_insert_len (fst e) (snd e) acc). lia. }
+  specialize (H log []). cbn [length] in H. lia.
+Qed.
+
+Lemma m_has_get q m :
+  wf_root (m_static m) -> m_has q m = match m_get q m with Some _ => true | None => false end.
+Proof.
+  intros Hwf. unfold m_has, m_get. destruct (e_get q (e_view (m_edits m))) as [[v|]|]; try reflexivity.
+  rewrite (has_spec q _ Hwf). unfold d_has. rewrite (get_spec q _ Hwf). reflexivity.
+Qed.
+
+(* operations covered by the partial theorem *)
+Definition pdc (o : mop) : bool :=
+  match o with MPut _ _ | MDel _ | MCheckpoint => true | _ => false end.
+
+Section Partial.
+  Variable rb : list kv -> node.
+  Variable t : node.
+  Variable maxp : nat.
+  Hypothesis Hwf : wf_root t.
+
+  Definition inv (m : mmap) (d : dict) (n : nat) : Prop :=
+    m_maxp m = maxp /\ m_static m = t /\ (length (e_log (m_edits m)) <= n)%nat
+    /\ ksorted (keys d) /\ forall q, m_get q m = d_get q d.
+
+  Lemma inv_step m d chk n o :
+    inv m d n -> pdc o = true -> (S n <= maxp)%nat ->
+    inv (mop_step rb m o) (fst (a_step (d, chk) (mop_abs o))) (S n).
+  Proof.
+    intros (Hmax & Hst & Hlen & Hs & Hget) Ho Hn. destruct o as [k v|k| | |deep]; try discriminate; cbn [mop_step mop_abs a_step fst].
+    - (* put: below the threshold, no flush *)
+      unfold put. cbn [m_edits m_maxp].
+      assert (Hc : Nat.ltb (m_maxp m) (e_count (e_put k (Some v) (m_edits m))) = false).
+      { apply Nat.ltb_ge. pose proof (e_count_le (e_put k (Some v) (m_edits m))) as Hc.
+        unfold e_put in Hc at 2. cbn [e_log] in Hc. rewrite app_length in Hc. cbn [length] in Hc. lia. }
+      rewrite Hc. unfold inv. cbn [m_maxp m_static m_edits e_put e_log].
+      repeat split; try assumption.
+      + rewrite app_length. cbn [length]. lia.
+      + apply d_put_sorted, Hs.
+      + intros q. unfold m_get. cbn [m_edits m_static]. 
+        change {| e_log := e_log (m_edits m) ++ [(k, Some v)]; e_cp := e_cp (m_edits m) |} with (e_put k (Some v) (m_edits m)).
+        rewrite e_view_put, e_get_insert, d_get_put. destruct (k =? q); [reflexivity|]. apply Hget.
+    - unfold delete, inv. cbn [m_maxp m_static m_edits e_put e_log].
+      repeat split; try assumption.
+      + rewrite app_length. cbn [length]. lia.
+      + apply d_del_sorted, Hs.
+      + intros q. unfold m_get. cbn [m_edits m_static].
+        change {| e_log := e_log (m_edits m) ++ [(k, None)]; e_cp := e_cp (m_edits m) |} with (e_put k None (m_edits m)).
+        rewrite e_view_put, e_get_insert, (d_get_del q k d Hs). destruct (k =? q); [reflexivity|]. apply Hget.
+    - unfold checkpoint, inv. cbn [m_maxp m_static m_edits e_checkpoint e_log].
+      repeat split; try assumption; [lia|]. intros q. apply Hget.
+  Qed.
+
+  Lemma inv_run ops : forall m d chk n,
+    inv m d n -> forallb pdc ops = true -> (n + length ops <= maxp)%nat ->
+    exists n', inv (fold_left (mop_step rb) ops m) (fst (fold_left a_step (map mop_abs ops) (d, chk))) n'.
+  Proof.
+    induction ops as [|o ops IH]; intros m d chk n Hinv Hops Hn; cbn [fold_left map].
+    - exists n. exact Hinv.
+    - cbn [forallb] in Hops. apply andb_true_iff in Hops as [Ho Hops]. cbn [length] in Hn.
+      pose proof (inv_step m d chk n o Hinv Ho ltac:(lia)) as Hi.
+      destruct (a_step (d, chk) (mop_abs o)) as [d' chk'] eqn:Ea. cbn [fst] in Hi.
+      apply (IH _ d' chk' (S n) Hi Hops). lia.
+  Qed.
+
+  Theorem mutable_get_refines_partial ops :
+    forallb pdc ops = true -> (length ops <= maxp)%nat ->
+    forall q, m_get q (run_m rb t maxp ops) = d_get q (dict_after t ops)
+              /\ m_has q (run_m rb t maxp ops) = d_has q (dict_after t ops).
+  Proof.
+    intros Hops Hlen q.
+    assert (Hinv0 : inv (mutate t maxp) (flatten t) 0).
+    { unfold inv, mutate. cbn [m_maxp m_static m_edits e_empty e_log length].
+      repeat split; try reflexivity; [lia | apply wf_root_sorted, Hwf |].
+      intros q'. unfold m_get. cbn. apply get_spec, Hwf. }
+    destruct (inv_run ops _ _ (flatten t) 0%nat Hinv0 Hops ltac:(lia)) as (n' & _ & Hst & _ & _ & Hget).
+    unfold run_m, dict_after, a_run in *. split; [apply Hget|].
+    unfold d_has. rewrite <- Hget. apply m_has_get. rewrite Hst. exact Hwf.
+  Qed.
+End Partial.
